@@ -481,7 +481,107 @@ def mat_attr(it, m: Mat, name):  # noqa: F811
         from .interp import PyFunc
 
         return PyFunc(lambda it_, *shape: mat_resize(it_, m, shape), "spmatrix.resize")
+    if name in ("indices", "indptr") or (name == "data" and m.fmt == "csr" and m.coo is None):
+        raw = csr_raw(it, m)
+        return raw[name]
+    if name == "diagonal":
+        from .interp import PyFunc
+
+        e = entry_fn(it, m)
+        return PyFunc(lambda it_: Arr.new(Vec(ops.zmin(m.rows, m.cols) if not (isinstance(m.rows, int) and isinstance(m.cols, int)) else min(m.rows, m.cols), lambda i: ops._real(e(i, i)), "real")), "spmatrix.diagonal")
+    if name == "setdiag":
+        from .interp import PyFunc
+
+        return PyFunc(lambda it_, vals, k=0: mat_setdiag(it_, m, vals, k), "spmatrix.setdiag")
     return _old_attr(it, m, name)
+
+
+def mat_setdiag(it, m: Mat, vals, k=0):
+    """spmatrix.setdiag(values): IN PLACE; afterwards every position of the main diagonal is STORED (explicit
+    entries, also for zero values - measured on the installed SciPy) and holds values[i]; other entries unchanged."""
+    if k != 0:
+        raise Unsupported("setdiag off the main diagonal")
+    if getattr(m, "csr", None) is not None:
+        raise Unsupported("setdiag after the raw CSR arrays were taken")
+    hook = it.hooks.get("store")
+    if hook is not None:
+        class _Container:
+            region = getattr(m, "container_region", m.region)
+
+        hook(it, _Container, None, None, "spmatrix.setdiag")
+    e0 = entry_fn(it, m)
+    vv = _vec_of(vals) if not isinstance(vals, (int, float)) and not z3.is_expr(vals) else None
+    val = (lambda i: ops._real(vv.f(i))) if vv is not None else (lambda i: ops._real(vals))
+    m.entry = lambda i, j: z3.If(_iv(i) == _iv(j), val(i), ops._real(e0(i, j)))
+    m.coo = None
+    m.diag_stored = True
+    return None
+
+
+def csr_raw(it, m: Mat):
+    """the raw arrays of a CANONICAL csr matrix (sorted column indices, no duplicates - what scipy's bmat(format=
+    'csr') / tocsr() / arithmetic produce): data, indices, indptr with their well-formedness facts, tied to the
+    entry function through the ghost maps rowof(p) and posof(i, c) (position of the stored entry (i, c) or -1)."""
+    raw = getattr(m, "csr", None)
+    if raw is not None:
+        return raw
+    if m.fmt != "csr":
+        raise Unsupported(f"raw index arrays of a {m.fmt} matrix")
+    p = it.path
+    rows, cols = _iv(m.rows), _iv(m.cols)
+    nnz = p.int("nnz")
+    p.assume(nnz >= 0)
+    mk = lambda nm, n, kind: (lambda A: Vec(n, lambda i: z3.Select(A, p.auto_index(i, n)), kind, arr=A, name=nm))(z3.Array(p.fresh_name(nm), z3.IntSort(), z3.RealSort() if kind == "real" else z3.IntSort()))
+    data0, ind0, ptr0 = mk("csr_data", nnz, "real"), mk("csr_indices", nnz, "int"), mk("csr_indptr", rows + 1, "int")
+    data, ind, ptr = Arr.new(data0), Arr.new(ind0, dtype="int"), Arr.new(ptr0, dtype="int")
+    posof = p.func("posof", z3.IntSort(), z3.IntSort(), z3.IntSort())
+    e_old = entry_fn(it, m)
+    from .core import UFact
+
+    p.index_term(z3.IntVal(0), rows + 1)
+    p.index_term(rows, rows + 1)
+    p.assume(ptr0.f(0) == 0)
+    p.assume(ptr0.f(rows) == nnz)
+    p.add_ufact(UFact(1, lambda r: z3.And(ptr0.f(r) >= 0, ptr0.f(r) <= ptr0.f(r + 1), ptr0.f(r + 1) <= nnz), [(0, rows)], "csr:indptr_monotone"))
+    p.add_ufact(UFact(2, lambda a, b: z3.Implies(a < b, ptr0.f(a + 1) <= ptr0.f(b)), [(0, rows), (0, rows)], "csr:indptr_monotone(rows a<b)"))
+    in_row = lambda r, q: z3.And(ptr0.f(r) <= q, q < ptr0.f(r + 1))
+    p.add_ufact(UFact(2, lambda r, q: z3.Implies(in_row(r, q), z3.And(ind0.f(q) >= 0, ind0.f(q) < cols, posof(r, ind0.f(q)) == q, z3.Implies(q + 1 < ptr0.f(r + 1), ind0.f(q) < ind0.f(q + 1)))), [(0, rows), (0, nnz)], "csr:stored_position_of_row_r(column_range,posof,strictly_increasing_columns)"))
+
+    # stored <=> posof >= 0; the value of a stored entry is data[posof]; an entry that is not stored is zero
+    def pos_fact(i, c):
+        q = posof(i, c)
+        return z3.And(q >= -1, z3.Implies(q >= 0, z3.And(q < nnz, ptr0.f(i) <= q, q < ptr0.f(i + 1), ind0.f(q) == c)))
+
+    raw = dict(data=data, indices=ind, indptr=ptr, nnz=nnz, posof=posof, data0=data0, indices0=ind0, indptr0=ptr0, pos_fact=pos_fact, entry0=e_old, in_row=in_row, rows=rows)
+    raw["diag_stored"] = bool(getattr(m, "diag_stored", False))
+
+    def diag_fact(i):
+        """instance of 'the diagonal entry of row i is stored' (only for matrices whose diagonal was set explicitly)"""
+        i = _iv(i)
+        return z3.And(pos_fact(i, i), z3.Implies(z3.And(i >= 0, i < rows, i < cols), posof(i, i) >= 0)) if raw["diag_stored"] else pos_fact(i, i)
+
+    raw["diag_fact"] = diag_fact
+    m.csr = raw
+
+    def entry(i, j):
+        # the matrix IS its arrays: entry through the CURRENT data array (in-place edits of .data are seen);
+        # the structure (indices / indptr) is the one at the time the arrays were taken
+        i, j = _iv(i), _iv(j)
+        q = posof(i, j)
+        p.assume(pos_fact(i, j))
+        if z3.is_int(q):
+            p.index_term(q, nnz)
+        return z3.If(q >= 0, ops._real(data.vec().f(q)), z3.RealVal(0))
+
+    # link to the entries the matrix had before: same values
+    def link(i, j):
+        p.assume(pos_fact(_iv(i), _iv(j)))
+        q = posof(_iv(i), _iv(j))
+        return z3.If(q >= 0, ops._real(data0.f(q)), z3.RealVal(0)) == ops._real(e_old(i, j))
+
+    raw["link"] = link
+    m.entry = entry
+    return raw
 
 
 def mat_resize(it, m: Mat, shape):
